@@ -18,7 +18,7 @@ import (
 // deadlines.
 
 func init() {
-	register(&Prop{ID: "C18", Run: runC18, Quick: 10000, Thorough: 120000, Level: "exploration"})
+	register(&Prop{ID: "C18", Run: runC18, Quick: 10000, Thorough: 800000, Level: "exploration"})
 }
 
 func isDeadlineErr(err error) bool {
